@@ -105,6 +105,7 @@ class AuditRun:
         if not self.polling:
             if first:
                 self.orig_cvrs = list(self.cvr_list)
+                self.notify("before_phantoms", contests)
                 self.cvr_list, self.n_phantoms = self.call(
                     "make_phantoms", ns.CVR.make_phantoms, audit=self.audit, contests=contests, cvr_list=self.cvr_list,
                     prefix="phantom-1-", tally_pool=self.case["phantom_label"]["tally_pool"],
@@ -148,7 +149,8 @@ class AuditRun:
                                   tally_pools=self.pools, use_style=self.use_style)
             if self.case.get("margins_via_tally"):
                 # the other documented way to obtain margins: from the reported tallies (does not touch test.u)
-                self.call("Contest.tally", ns.Contest.tally, contests, self.cvr_list, enforce_rules=False)
+                self.call("Contest.tally", ns.Contest.tally, contests, self.cvr_list,
+                          enforce_rules=bool(self.case.get("tally_rules", False)))
                 for con in contests.values():
                     self.call("find_margins_from_tally", con.find_margins_from_tally)
                 self.out.probe("margins from tallies")
@@ -170,7 +172,7 @@ class AuditRun:
         self.shortfall_manifest = self.world["max_cards"] - sum(b["n"] for b in case["batches"])
         self.manifest = manifest_df(case["batches"], self.shortfall_manifest)
         if n_lost:
-            out.fault("F2 card has no CVR", n_lost)
+            out.faults["F2 card has no CVR"] += n_lost
         if self.n_phantoms:
             out.probe("phantom CVRs created", 1)
         if any(b["n"] == 0 for b in case["batches"]):
@@ -232,11 +234,26 @@ class AuditRun:
         ns, out = self.ns, self.out
         self.round_no = r
         if rnd.get("rebuild"):
-            out.fault("F9 audit state rebuilt between rounds")
+            out.faults["F9 audit state rebuilt between rounds"] += 1
             contests = self.build_contests()
             self.contests = self.finish_contests(contests, first=False)
             self.rebuilt.append(r)
             self.notify("after_rebuild", r)
+        if rnd.get("retally") and self.case.get("margins_via_tally") and not self.polling:
+            # the reported tallies are tabulated again (same CVRs): nothing may change
+            self.call("Contest.tally", ns.Contest.tally, self.contests, self.cvr_list,
+                      enforce_rules=bool(self.case.get("tally_rules", False)))
+            for con in self.contests.values():
+                self.call("find_margins_from_tally", con.find_margins_from_tally)
+            out.probe("tallies tabulated again between rounds")
+            out.shape("retally")
+        if rnd.get("remargin") and not self.polling:
+            # margins revised between rounds: now taken from the CVRs
+            self.call("set_all_margins_from_cvrs", ns.Assertion.set_all_margins_from_cvrs, audit=self.audit,
+                      contests=self.contests, cvr_list=self.cvr_list)
+            out.probe("margins revised between rounds")
+            out.shape("remargin")
+            self.notify("after_remargin", r)
         sizes = self.sizes_for(rnd)
         if (rnd.get("size_from_estimate") and r > 0 and not self.polling and self.use_style and self.data_hist
                 and not rnd.get("rebuild")):
@@ -318,7 +335,7 @@ class AuditRun:
         names = {"F1": "F1 card cannot be found", "F3": "F3 transcription differs", "F4": "F4 manual record lacks contest",
                  "F5": "F5 manual record has extra contest", "enc": "mark encoding differs"}
         for f in sorted(fired):
-            out.fault(names[f])
+            out.faults[names[f]] += 1  # (whether a run is non-trivial is each check's own rule, not the driver's)
         self.mvr_sample, self.cvr_sample = mvr_sample, cvr_sample
         # ---- what every assertion is about to be given
         data = {}
@@ -341,8 +358,6 @@ class AuditRun:
         out.ev("p", {f"{k[0]}/{k[1]}": v for k, v in ps.items()})
         out.ev("done", bool(done))
         out.shape(f"done={bool(done)}")
-        if any(p < 1 for p in ps.values()):
-            out.nontrivial = True
         self.notify("after_pvalues", r, float(p_max), bool(done))
 
     def run(self):
